@@ -329,6 +329,13 @@ def shard(item, res, ctx):
     check_shocks_from_data(spec, m, item["N"], item["dev"], res, ctx)
     if item["N"] == 3 and not item["dev"]:
         check_after_reparameterisation(spec, 3, res, ctx)
+    if item["N"] == 3:
+        # two parameter variants filtered together: every variant returns what its own single-variant model returns
+        # (the differential of C03, which covers the smoothed transition variables and shocks)
+        setting = c03.std_settings(spec, 3, ctx.seed)[0]
+        n0 = res.counters.get("variant_runs", 0)
+        c03.check_variants(spec, m, 3, setting, item["dev"], res, ctx)
+        res.count("two_variant_filter_runs", res.counters.get("variant_runs", 0) - n0)
 
 
 def run(ctx, total, info):
@@ -345,7 +352,8 @@ def run(ctx, total, info):
     info["floors"] = {"cases": (len(total.nontrivial), 800), "shocks_from_data_runs": (total.counters.get("shocks_from_data_runs", 0), 60),
                       "deviation_vs_level_unit_root": (total.counters.get("deviation_vs_level_unit_root", 0), 300),
                       "smoother_alone_runs": (total.counters.get("smoother_alone_runs", 0), 3000),
-                      "reparameterised_objects_checked": (total.counters.get("reparameterised_objects_checked", 0), 10)}
+                      "reparameterised_objects_checked": (total.counters.get("reparameterised_objects_checked", 0), 10),
+                      "two_variant_filter_runs": (total.counters.get("two_variant_filter_runs", 0), 60)}
 
 
 def replay(case):
